@@ -93,9 +93,9 @@ def check(ctx, rep):
             else:
                 rep.ob("R-WITH", key + " does not override a given name", not stores, "kwargs['name'] is overwritten although %s" % ("a name was given" if given else "no name attribute was found"), where_of(m), trace_of(p))
         rep.ob("R-WITH", key + " has a normal path", nret > 0, "", where_of(m))
-    rep.require(len(cands) >= 1, "CanCustomize.with_*: no hasattr(self, <name attribute>) test found: names are not propagated")
     for n in withs:
-        rep.ob("R-WITH", "CanCustomize.%s passes the executor's name on" % n, inherits.get(n, False), "no path of %s puts the name attribute of self into kwargs['name']: the layer created by this call is named 'default' whatever the executor it is chained onto is called (its siblings do propagate it)" % n, where_of(cc.methods[n]))
+        rep.ob("R-WITH", "CanCustomize.%s passes the executor's name on" % n, inherits.get(n, False), "no path of %s puts the name attribute of self into kwargs['name'] after finding that self has it (hasattr) and that no name was given: the layer created by this call is named 'default' whatever the executor it is chained onto is called" % n, where_of(cc.methods[n]))
+    rep.require(len(cands) >= 1, "CanCustomize.with_*: no hasattr(self, <name attribute>) test found: names are not propagated")
 
     # ---- Executors.with_X
     for n in ewiths:
